@@ -128,3 +128,34 @@ Definition record_rule {A B} (args : list A) (options : list B) (returncode : N)
                (match options with [] => true | _ => false end) true in
   (existsb (fun e => match e with WriteArgsJson => true | _ => false end) evs,
    existsb (fun e => match e with WriteOptionsJson => true | _ => false end) evs).
+
+(* ---------- the copier loop as an interpreter of ONE iteration's effects ----------
+   (the per-iteration decision is what the translator reads off utils/tee.py: Gen.Generated.gen_tee_iteration;
+   Proofs/GenTieTee.v shows it is [tee_iteration], Proofs/TeeProofs.v that interpreting it is [tee_loop_f]) *)
+Inductive tee_eff := TBreak | TFileWrite | TStreamWrite | TStreamOff.
+
+Definition tee_iteration (data_empty stream_ok write_ok : bool) : list tee_eff :=
+  if data_empty then [TBreak]
+  else TFileWrite :: (if stream_ok then (if write_ok then [TStreamWrite] else [TStreamOff]) else []).
+
+Record tee_st := { ts_file : bytes; ts_stream : bytes; ts_ok : bool; ts_broke : bool }.
+
+Definition tee_apply (data : bytes) (s : tee_st) (e : tee_eff) : tee_st :=
+  match e with
+  | TBreak => {| ts_file := ts_file s; ts_stream := ts_stream s; ts_ok := ts_ok s; ts_broke := true |}
+  | TFileWrite => {| ts_file := ts_file s ++ data; ts_stream := ts_stream s; ts_ok := ts_ok s; ts_broke := ts_broke s |}
+  | TStreamWrite => {| ts_file := ts_file s; ts_stream := ts_stream s ++ data; ts_ok := ts_ok s; ts_broke := ts_broke s |}
+  | TStreamOff => {| ts_file := ts_file s; ts_stream := ts_stream s; ts_ok := false; ts_broke := ts_broke s |}
+  end.
+
+Definition is_nil (d : bytes) : bool := match d with [] => true | _ => false end.
+
+(* [ok]: how many more writes to Conductor's own stream succeed *)
+Fixpoint tee_loop_it (ok : nat) (reads : list bytes) (s : tee_st) : bytes * bytes :=
+  match reads with
+  | [] => (ts_file s, ts_stream s)
+  | data :: rest =>
+    let s' := fold_left (tee_apply data) (tee_iteration (is_nil data) (ts_ok s) (Nat.ltb 0 ok)) s in
+    if ts_broke s' then (ts_file s', ts_stream s')
+    else tee_loop_it (if ts_ok s then Nat.pred ok else ok) rest s'
+  end.
